@@ -35,6 +35,9 @@ def jobs(tier):
             lite = tier == "quick" and not (s == "pair" and algo == "dsa") and method in ("heur_comhost", "gh_cgdp")
             out.append({"name": "%s-%s-a%d%s" % (method, gname, nag, "-lite" if lite else ""), "method": method, "algo": algo,
                         "struct": s, "agents": nag, "lite": lite})
+    # two computations pinned on the same agent (zero hosting cost) plus a free one: the pinned load must add up
+    out.append({"name": "gh_cgdp-hyper-chain3-a2-pin2", "method": "gh_cgdp", "algo": "dsa", "struct": "chain3", "agents": 2,
+                "lite": True, "pin2": True})
     return out
 
 
@@ -59,7 +62,7 @@ def run(eng, p):
         an = "a%d" % i
         cap = eng.sym_real("cap_" + an, 0, LIM)
         hc = {}
-        for c in comps[:1]:
+        for c in (comps[:2] if (p.get("pin2") and i == 0) else comps[:1] if not p.get("pin2") else []):
             k = eng.pick(["default", "zero"] if p.get("lite") else ["default", "zero", "pos"], "host_%s_%s" % (an, c))
             if k == "zero":
                 hc[c] = 0
